@@ -602,7 +602,7 @@ func main() {
 		return
 	}
 	vlib.Main("C07", "exploration", 12*time.Minute, func(r *vlib.Run) {
-		r.Rule("schedules: rounds of P processes (2-6) x G goroutines (2-6) released together on F files (every second process with its standard input closed, so that files land on descriptor 0); each client does K operations (Read via lockedfile.Read or Open+delayed ReadAll, Write of a unique payload, Transform to a unique payload, Transform whose function fails) with unique self-describing payloads of 24B..256KiB and seeded delays at the lockedfile hooks; each file's history (plus a final quiescent Read) is checked with porcupine against a register model; every fifth round has no blind Writes and is also checked by the chain checker; every fifth round writes empty contents too and starts half of its files empty (EMPTY is then an ordinary value of the register); every fifth round starts with no files at all (12-31 names, first operations race to create them; a missing and an empty file are the one value EMPTY). faults: for 9 (quick) / 15 old/new length relations a dry run under strace lists the file operations of one Transform, then one run per (operation, errno), plus failing function and RLIMIT_FSIZE short writes; 57 Writes whose content reader fails after 0 / 1 / half / all but one of its bytes must report that error. Non-trivial/distinct = per-file histories containing overlapping operations of different kinds + confirmed fault injections.")
+		r.Rule("schedules: rounds of P processes (2-6) x G goroutines (2-6) released together on F files (every second process with its standard input closed, so that files land on descriptor 0); each client does K operations (Read via lockedfile.Read or Open+delayed ReadAll, Write of a unique payload, Transform to a unique payload, Transform whose function fails) with unique self-describing payloads of 24B..256KiB and seeded delays at the lockedfile hooks; each file's history (plus a final quiescent Read) is checked with porcupine against a register model; every fifth round has no blind Writes and is also checked by the chain checker; every fifth round writes empty contents too and starts half of its files empty (EMPTY is then an ordinary value of the register); every fifth round starts with no files at all (12-31 names, first operations race to create them; a missing and an empty file are the one value EMPTY); every fourth round the workers run under strace with EINTR injected into every other flock call of every thread. faults: for 9 (quick) / 15 old/new length relations a dry run under strace lists the file operations of one Transform, then one run per (operation, errno), plus failing function and RLIMIT_FSIZE short writes; 57 Writes whose content reader fails after 0 / 1 / half / all but one of its bytes must report that error. Non-trivial/distinct = per-file histories containing overlapping operations of different kinds + confirmed fault injections.")
 		r.Assume("CLOCK_MONOTONIC is one clock for all processes of the machine; porcupine v1.3.0 decides linearizability of the recorded history (timeout => inconclusive)")
 		base := vlib.Scratch()
 		W := runtime.NumCPU()
@@ -613,6 +613,8 @@ func main() {
 		r.Set("fault_runs_transform_returned_nil", atomic.LoadInt64(&nCompleted))
 
 		rounds := r.Pick(24, 160)
+		_, straceErr := exec.LookPath("strace")
+		haveStrace := straceErr == nil
 		rng := r.Rand("rounds")
 		racePrefix := filepath.Join(base, "race")
 		hook := map[string]int64{}
@@ -663,6 +665,10 @@ func main() {
 			if emptyRound {
 				r.Count("rounds_with_empty_contents", 1)
 			}
+			eintrRound := round%4 == 3 && haveStrace
+			if eintrRound {
+				r.Count("rounds_with_EINTR_injected_into_flock", 1)
+			}
 			words, err := vlib.OpenSharedWords(filepath.Join(dir, "words"), 8)
 			if err != nil {
 				r.Inconclusive(err.Error())
@@ -674,6 +680,11 @@ func main() {
 				out := filepath.Join(dir, fmt.Sprintf("res%d.json", p))
 				outs = append(outs, out)
 				cmd := exec.Command(os.Args[0])
+				if eintrRound {
+					// every other flock call of every thread of this worker fails with EINTR (not executed): an
+					// interrupted lock request must be reissued, never taken for a lock that was granted
+					cmd = exec.Command("strace", "-f", "-qq", "--seccomp-bpf", "-e", "trace=flock", "-e", "inject=flock:error=EINTR:when=1+2", "-o", "/dev/null", os.Args[0])
+				}
 				cmd.Env = append(os.Environ(), "C07_WORKER=1", "C07_DIR="+dir, "C07_OUT="+out,
 					fmt.Sprintf("C07_SEED=%d", r.SubSeed(fmt.Sprintf("w-%d-%d", round, p))%1_000_000),
 					fmt.Sprintf("C07_G=%d", G), fmt.Sprintf("C07_K=%d", K), fmt.Sprintf("C07_F=%d", F), fmt.Sprintf("C07_WID=%d", p+1),
